@@ -239,6 +239,27 @@ def make_events(rng, n):
     return evs
 
 
+def tree_type_lists(seed):
+    """the type / key-type lists of documentation-tree nodes (no listed property names them): every always-applicable
+    type-like leaf of a node's rule is listed, once per occurrence (Tree.tla TypeEntries; Trace_Tree judged with
+    VERIF_PROP=EXTRA)"""
+    from harness.props import c20
+    rng = random.Random(seed + 20)
+    events = []
+    for _ in range(600):
+        try:
+            schema = c20.make_schema(rng)
+            e, _nested = c20.tree_event(len(events) + 1, schema, 0)
+            events.append(e)
+        except Unencodable:
+            pass
+    res = tlc.accept("Trace_Tree", "Trace_Tree.cfg", events, env={"VERIF_PROP": "EXTRA"})
+    for m in res["mismatches"][:3]:
+        print("EXTRA-MISMATCH", ("tree", m["clause"]), str(events[m["id"] - 1]["nodes"])[:300])
+    print(f"[extras] tree type lists: events={len(events)} mismatches={len(res['mismatches'])}")
+    return len(res["mismatches"])
+
+
 def main():
     seed = int(os.environ.get("VERIF_SEED", "20261003"))
     n = int(sys.argv[1]) if len(sys.argv) > 1 else 4000
@@ -266,6 +287,7 @@ def main():
         if k in known:
             print(f"EXTRA-OBSERVATION {k[0]}/{k[1]}: {known[k]} [{n} case(s)]")
     print(f"[extras] events={len(evs)} mismatches={len(res['mismatches'])} new={new} states={res['distinct']}")
+    new += tree_type_lists(seed)
     return 1 if new else 0
 
 
